@@ -312,6 +312,73 @@ func genericRules(w *World, r *Report, prop string) {
 		}
 	}
 	r.OK(prop+"-G6", "census", 0, fmt.Sprintf("%d per-iteration containers inspected", nG6))
+	// ---- G8 an error value is looked at before it is overwritten or dropped
+	r.Rule(prop+"-G8", "no error value dies unread", "in the same functions: an error returned by a call (or built by an error constructor) and assigned to a variable is tested, returned or passed on before the variable is assigned again; it is not silently replaced by a later result", 0)
+	nG8 := 0
+	for _, root := range fns {
+		fam := familyOf(root)
+		for _, fn := range fam.Funcs {
+			host := shortFn2(fn)
+			k := 0
+			eachInstr(fn, func(in ssa.Instruction) {
+				c, ok := in.(*ssa.Call)
+				if !ok {
+					return
+				}
+				var ev ssa.Value
+				if tp, isT := c.Type().(*types.Tuple); isT {
+					if tp.Len() > 0 && isErrorType(tp.At(tp.Len()-1).Type()) {
+						ev = extractOfTuple(c, tp.Len()-1)
+					}
+				} else if isErrorType(c.Type()) {
+					ev = c
+				}
+				if ev == nil && !isErrorType(c.Type()) {
+					// `x, _ := f()`: explicitly ignored
+					return
+				}
+				// only errors assigned to a NAMED variable: `_ = f()`, `x, _ := f()` and a bare call statement are
+				// explicit decisions to ignore
+				if !assignedToNamedVar(rootFunc(fn), c) {
+					return
+				}
+				if ev == nil {
+					ev = c
+				}
+				nG8++
+				live := false
+				if ev.Referrers() != nil {
+					for _, ref := range *ev.Referrers() {
+						switch x := ref.(type) {
+						case *ssa.DebugRef:
+						case *ssa.Store:
+							// stored into a variable: some load must see it before the next store
+							al, isAl := fam.canon(x.Addr).(*ssa.Alloc)
+							if !isAl {
+								live = true
+								break
+							}
+							if storeReachesLoad(fam, al, x) {
+								live = true
+							}
+						default:
+							live = true
+						}
+					}
+				}
+				if live {
+					return
+				}
+				name := callSym(c.Common()).name
+				if name == "" {
+					name = "call"
+				}
+				k++
+				r.Fail(prop+"-G8", fmt.Sprintf("%s | error of %s never read #%d", host, name, k), c.Pos(), "the error produced here is assigned but never tested, returned or passed on: a later assignment replaces it (or nothing reads it), so this failure is lost and the code goes on as if the step had succeeded")
+			})
+		}
+	}
+	r.OK(prop+"-G8", "census", 0, fmt.Sprintf("%d error-producing calls inspected", nG8))
 	// ---- G7 lock pairing
 	r.Rule(prop+"-G7", "locks are paired", "in the same functions: a mutex / key lock taken on every path to a return is released before it (directly or by a deferred unlock), and every unlock releases a lock that is held on every path reaching it", 0)
 	nLocks := 0
@@ -722,4 +789,118 @@ func identRole(n string) string {
 		return k
 	}
 	return ""
+}
+
+// assignedToNamedVar: the call is the single right-hand side of an assignment / definition whose last left-hand side
+// (the error position) is an identifier other than the blank one.
+func assignedToNamedVar(root *ssa.Function, c *ssa.Call) bool {
+	syn := root.Syntax()
+	if syn == nil || !c.Pos().IsValid() {
+		return false
+	}
+	path := pathEnclosing(syn, c.Pos())
+	for i := len(path) - 1; i >= 0; i-- {
+		switch x := path[i].(type) {
+		case *ast.AssignStmt:
+			if len(x.Rhs) != 1 {
+				return false
+			}
+			if ce, ok := x.Rhs[0].(*ast.CallExpr); !ok || !(ce.Lparen == c.Pos() || (ce.Pos() <= c.Pos() && c.Pos() < ce.End())) {
+				return false
+			}
+			// the call must be the RHS itself, not nested inside it
+			if ce := x.Rhs[0].(*ast.CallExpr); ce.Lparen != c.Pos() {
+				return false
+			}
+			id, ok := x.Lhs[len(x.Lhs)-1].(*ast.Ident)
+			return ok && id.Name != "_"
+		case *ast.ValueSpec:
+			if len(x.Values) != 1 || len(x.Names) == 0 {
+				return false
+			}
+			if ce, ok := x.Values[0].(*ast.CallExpr); !ok || ce.Lparen != c.Pos() {
+				return false
+			}
+			return x.Names[len(x.Names)-1].Name != "_"
+		case *ast.ExprStmt, *ast.ReturnStmt, *ast.GoStmt, *ast.DeferStmt, *ast.FuncLit:
+			return false
+		}
+	}
+	return false
+}
+
+// storeReachesLoad: reaching definitions for one local variable. Does the value stored by st reach a read of the
+// variable (a load, or any literal that captures the variable) on some path, before another store to it?
+func storeReachesLoad(fam *Family, al *ssa.Alloc, st *ssa.Store) bool {
+	isLoad := func(in ssa.Instruction) bool {
+		switch x := in.(type) {
+		case *ssa.UnOp:
+			return x.Op == token.MUL && fam.canon(x.X) == ssa.Value(al)
+		case *ssa.MakeClosure:
+			for _, b := range x.Bindings {
+				if fam.canon(b) == ssa.Value(al) {
+					return true
+				}
+			}
+		case *ssa.Return:
+			// named result: the value is what the function returns
+			return al.Comment != "" && st.Parent().Signature.Results() != nil && func() bool {
+				rs := st.Parent().Signature.Results()
+				for i := 0; i < rs.Len(); i++ {
+					if rs.At(i).Name() == al.Comment {
+						return true
+					}
+				}
+				return false
+			}()
+		}
+		return false
+	}
+	isStore := func(in ssa.Instruction) bool {
+		s2, ok := in.(*ssa.Store)
+		return ok && s2 != st && fam.canon(s2.Addr) == ssa.Value(al)
+	}
+	// a literal of the same family that reads the variable may run at any time (deferred, callback): the store is
+	// only dead if the literal is created after it; creation is a MakeClosure, handled by isLoad. A literal created
+	// BEFORE the store and invoked later (retry callbacks stored in variables) is rare; be conservative:
+	if st.Parent() != al.Parent() {
+		return true
+	}
+	blk := st.Block()
+	seen := map[*ssa.BasicBlock]bool{}
+	var walk func(b *ssa.BasicBlock, from int) bool
+	walk = func(b *ssa.BasicBlock, from int) bool {
+		for i := from; i < len(b.Instrs); i++ {
+			in := b.Instrs[i]
+			if isLoad(in) {
+				return true
+			}
+			if isStore(in) {
+				return false
+			}
+			// a call of a literal that was created earlier and captures the variable may read it
+			if c, ok := in.(ssa.CallInstruction); ok {
+				for _, a := range c.Common().Args {
+					if mc, isMC := a.(*ssa.MakeClosure); isMC {
+						for _, bd := range mc.Bindings {
+							if fam.canon(bd) == ssa.Value(al) {
+								return true
+							}
+						}
+					}
+				}
+			}
+		}
+		for _, s := range b.Succs {
+			if seen[s] {
+				continue
+			}
+			seen[s] = true
+			if walk(s, 0) {
+				return true
+			}
+		}
+		return false
+	}
+	return walk(blk, instrIndex(st)+1)
 }
